@@ -261,3 +261,59 @@ func VerifC06Race() {
 		}
 	})
 }
+
+// VerifC18Race (concurrency mode): one publication (real process.SendEvent -> RouteSendEvent: push
+// into the event's buffer, read the subscribers, deliver) races with one new subscription (real
+// process.LinkEvent -> RouteLinkEvent: register the link, hand out the buffered messages). For every
+// interleaving the new subscriber sees the publication at most once - delivered, or among the
+// buffered messages it is handed, not both - and, once both calls have returned, exactly once.
+func VerifC18Race() {
+	lib.VerifClockAdvance(0)
+	n := vfNode()
+	prod, _ := vfProc(n, 2000, "", gen.ProcessStateRunning, 0)
+	cons, _ := vfProc(n, 2001, "", gen.ProcessStateRunning, 0)
+	lib.VerifGuarded(n.targetManager)
+	token, err := prod.RegisterEvent("ev", gen.EventOptions{Buffer: 2})
+	lib.VerifAssert(err == nil, "event registered")
+	ev := gen.Event{Name: "ev", Node: n.name}
+	delivered := 0 // the publication was put into the subscriber's mailbox
+	lib.VerifOverride("(*ergo.services/ergo/node.node).sendEventMessage", func(nn *node, from gen.PID, to gen.PID, priority gen.MessagePriority, message gen.MessageEvent) error {
+		if to == cons.pid {
+			if v := lib.VerifSharedLoad(&delivered); v < 2 {
+				lib.VerifSharedStore(&delivered, v+1)
+			}
+		}
+		return nil
+	})
+	handed := 0 // 1: the buffered messages handed to the subscriber contain the publication
+	subscribed := 0
+	published := 0
+	lib.VerifGo("subscriber", func() {
+		last, err := cons.LinkEvent(ev)
+		if err != nil {
+			lib.VerifSharedStore(&subscribed, 2)
+			return
+		}
+		for _, m := range last {
+			if m.Message == 7 {
+				lib.VerifSharedStore(&handed, 1)
+			}
+		}
+		lib.VerifSharedStore(&subscribed, 1)
+	})
+	lib.VerifGo("publisher", func() {
+		if prod.SendEvent("ev", token, 7) == nil {
+			lib.VerifSharedStore(&published, 1)
+		}
+	})
+	lib.VerifAtQuiescence(func() {
+		s := lib.VerifSharedLoad(&subscribed)
+		p := lib.VerifSharedLoad(&published)
+		d := lib.VerifSharedLoad(&delivered)
+		h := lib.VerifSharedLoad(&handed)
+		lib.VerifAssert(d+h <= 1, "a subscriber sees a publication at most once (delivered or handed over as buffered, not both)")
+		if s == 1 && p == 1 {
+			lib.VerifAssert(d+h == 1, "a publication racing with a subscription is not lost")
+		}
+	})
+}
